@@ -493,6 +493,27 @@ def rf60(run):
         run.violation(rule, f, 'forward through an export', 'for `forward g` followed by `export g` the forward item refers to the export item, not '
                       'to the function: out_item prints no declaration of g and a call of g in front of its definition is rejected by the C '
                       'compiler (`g` undeclared)')
+    # an export placed in front of the data it exports (c2mir: `extern int y[3]; … use of y …; int y[3] = {…};`) declares the name
+    ty = dict(tu.enum('MIR_type_t'))
+    items = [{'->item_type': it['MIR_export_item'], 'name': 1, '->ref_def': 2},
+             {'->item_type': it['MIR_data_item'], 'name': 1, '->export_p': 1, '->u.data->nel': 1, '->u.data->el_type': ty['MIR_T_I32'],
+              '->u.data->name': 1}]
+    ex, heap = _item_exec(tu, items, stop_at_decl=False)
+    ex.exec_unit_calls = True
+    try:
+        ex.run(f.body, {'item': 1})
+    except _Stop:
+        pass
+    except F.AnalysisBroken as e_:
+        raise F.AnalysisBroken('out_item (export in front of data): %s' % e_)
+    n += 1
+    txt = ' '.join(ex.text().split())
+    ok = 'T' in txt.split() or txt.startswith('T ')
+    run.ob(rule, ('export in front of its data',), ok, {'printed for `export y` placed before `y: i32 …`': txt[:60]})
+    if not ok:
+        run.violation(rule, f, 'export in front of the data', 'for `export y` placed before the data item `y` out_item prints `%s`: nothing '
+                      'declares y for the functions between the export and the definition, and the C compiler rejects them (`y` '
+                      'undeclared) — the shape c2mir emits for `extern int y[3]; … int y[3] = {…};`' % txt[:40])
     return n
 
 
